@@ -9,80 +9,82 @@ Local Open Scope R_scope.
 Theorem C27_fromQuat_rotation R0 e0 e1 e2 e3 : e0*e0+e1*e1+e2*e2+e3*e3 = 1 ->
   is_rotation ROps (k27_fromQuat ROps R0 (e0,e1,e2,e3)).
 Proof. exact (fromQuat_rotation R0 e0 e1 e2 e3). Qed.
-Print Assumptions C27_fromQuat_rotation.
 
 Theorem C27_fromQuat_neg R0 R1 e0 e1 e2 e3 :
   k27_fromQuat ROps R0 (v4_neg ROps (e0,e1,e2,e3)) = k27_fromQuat ROps R1 (e0,e1,e2,e3).
 Proof. exact (fromQuat_neg R0 R1 e0 e1 e2 e3). Qed.
-Print Assumptions C27_fromQuat_neg.
 
 Theorem C27_quatFromAngleAxis_unit a u0 u1 u2 : u0*u0+u1*u1+u2*u2 = 1 ->
   v4_normSqr ROps (quatFromAngleAxis ROps a (u0,u1,u2)) = 1.
 Proof. exact (quatFromAngleAxis_unit a u0 u1 u2). Qed.
-Print Assumptions C27_quatFromAngleAxis_unit.
 
 Theorem C27_quatFromAngleAxis_canonical a u0 u1 u2 : 0 <= v4_0 (quatFromAngleAxis ROps a (u0,u1,u2)).
 Proof. exact (quatFromAngleAxis_canonical a u0 u1 u2). Qed.
-Print Assumptions C27_quatFromAngleAxis_canonical.
 
 Theorem C27_angleAxis_rotation R0 a u0 u1 u2 : u0*u0+u1*u1+u2*u2 = 1 ->
   is_rotation ROps (setFromAngleAboutUnitVector ROps R0 a (u0,u1,u2)).
 Proof. exact (angleAxis_rotation R0 a u0 u1 u2). Qed.
-Print Assumptions C27_angleAxis_rotation.
 
 Theorem C27_angleAxis_is_rodrigues R0 a u0 u1 u2 : u0*u0+u1*u1+u2*u2 = 1 ->
   setFromAngleAboutUnitVector ROps R0 a (u0,u1,u2) = rodrigues a (u0,u1,u2).
 Proof. exact (angleAxis_is_rodrigues R0 a u0 u1 u2). Qed.
-Print Assumptions C27_angleAxis_is_rodrigues.
 
 Theorem C27_quat_rot_quat_branch0 R0 e0 e1 e2 e3 : e0*e0+e1*e1+e2*e2+e3*e3 = 1 ->
   let M := k27_fromQuat ROps R0 (e0,e1,e2,e3) in guard0 M -> pm_q (rotToQuat ROps M) (e0,e1,e2,e3).
 Proof. exact (quat_rot_quat_branch0 R0 e0 e1 e2 e3). Qed.
-Print Assumptions C27_quat_rot_quat_branch0.
 
 Theorem C27_quat_rot_quat_branch1 R0 e0 e1 e2 e3 : e0*e0+e1*e1+e2*e2+e3*e3 = 1 ->
   let M := k27_fromQuat ROps R0 (e0,e1,e2,e3) in ~ guard0 M -> guard1 M -> pm_q (rotToQuat ROps M) (e0,e1,e2,e3).
 Proof. exact (quat_rot_quat_branch1 R0 e0 e1 e2 e3). Qed.
-Print Assumptions C27_quat_rot_quat_branch1.
 
 Theorem C27_quat_rot_quat_branch2 R0 e0 e1 e2 e3 : e0*e0+e1*e1+e2*e2+e3*e3 = 1 ->
   let M := k27_fromQuat ROps R0 (e0,e1,e2,e3) in ~ guard0 M -> ~ guard1 M -> guard2 M -> pm_q (rotToQuat ROps M) (e0,e1,e2,e3).
 Proof. exact (quat_rot_quat_branch2 R0 e0 e1 e2 e3). Qed.
-Print Assumptions C27_quat_rot_quat_branch2.
 
 Theorem C27_quat_rot_quat_branch3 R0 e0 e1 e2 e3 : e0*e0+e1*e1+e2*e2+e3*e3 = 1 ->
   let M := k27_fromQuat ROps R0 (e0,e1,e2,e3) in ~ guard0 M -> ~ guard1 M -> ~ guard2 M -> pm_q (rotToQuat ROps M) (e0,e1,e2,e3).
 Proof. exact (quat_rot_quat_branch3 R0 e0 e1 e2 e3). Qed.
-Print Assumptions C27_quat_rot_quat_branch3.
 
 Theorem C27_quat_rot_quat R0 e0 e1 e2 e3 : e0*e0+e1*e1+e2*e2+e3*e3 = 1 ->
   pm_q (rotToQuat ROps (k27_fromQuat ROps R0 (e0,e1,e2,e3))) (e0,e1,e2,e3).
 Proof. exact (quat_rot_quat R0 e0 e1 e2 e3). Qed.
-Print Assumptions C27_quat_rot_quat.
 
 Theorem C27_rot_quat_rot R0 R1 e0 e1 e2 e3 : e0*e0+e1*e1+e2*e2+e3*e3 = 1 ->
   let M := k27_fromQuat ROps R0 (e0,e1,e2,e3) in k27_fromQuat ROps R1 (rotToQuat ROps M) = M.
 Proof. exact (rot_quat_rot R0 R1 e0 e1 e2 e3). Qed.
-Print Assumptions C27_rot_quat_rot.
 
 Theorem C27_approximate_fixes_rotation R0 R1 e0 e1 e2 e3 : e0*e0+e1*e1+e2*e2+e3*e3 = 1 ->
   let M := k27_fromQuat ROps R0 (e0,e1,e2,e3) in setFromApproximateMat33 ROps R1 M = M.
 Proof. exact (approximate_fixes_rotation R0 R1 e0 e1 e2 e3). Qed.
-Print Assumptions C27_approximate_fixes_rotation.
 
 Theorem C27_ex_branch0_taken : guard0 (k27_fromQuat ROps I33 (1/2,1/2,1/2,1/2)).
 Proof. exact (@ex_branch0_taken). Qed.
-Print Assumptions C27_ex_branch0_taken.
 
 Theorem C27_ex_branch1_taken : let M := k27_fromQuat ROps I33 (0,1,0,0) in ~ guard0 M /\ guard1 M.
 Proof. exact (@ex_branch1_taken). Qed.
-Print Assumptions C27_ex_branch1_taken.
 
 Theorem C27_ex_branch2_taken : let M := k27_fromQuat ROps I33 (0,0,1,0) in ~ guard0 M /\ ~ guard1 M /\ guard2 M.
 Proof. exact (@ex_branch2_taken). Qed.
-Print Assumptions C27_ex_branch2_taken.
 
 Theorem C27_ex_branch3_taken : let M := k27_fromQuat ROps I33 (0,0,0,1) in ~ guard0 M /\ ~ guard1 M /\ ~ guard2 M.
 Proof. exact (@ex_branch3_taken). Qed.
-Print Assumptions C27_ex_branch3_taken.
 
+(** one traversal for the axioms of all theorems of this file (a Print Assumptions per theorem costs seconds each) *)
+Definition C27_allQ := (@C27_fromQuat_rotation,
+  @C27_fromQuat_neg,
+  @C27_quatFromAngleAxis_unit,
+  @C27_quatFromAngleAxis_canonical,
+  @C27_angleAxis_rotation,
+  @C27_angleAxis_is_rodrigues,
+  @C27_quat_rot_quat_branch0,
+  @C27_quat_rot_quat_branch1,
+  @C27_quat_rot_quat_branch2,
+  @C27_quat_rot_quat_branch3,
+  @C27_quat_rot_quat,
+  @C27_rot_quat_rot,
+  @C27_approximate_fixes_rotation,
+  @C27_ex_branch0_taken,
+  @C27_ex_branch1_taken,
+  @C27_ex_branch2_taken,
+  @C27_ex_branch3_taken).
+Print Assumptions C27_allQ.
